@@ -20,7 +20,9 @@ from decimal import Decimal
 from warnings import warn
 
 from .collections import PVLObject, PVLGroup, Quantity
-from .grammar import PVLGrammar, ODLGrammar, PDSGrammar, ISISGrammar
+from .grammar import (
+    PVLGrammar, ODLGrammar, PDSGrammar, ISISGrammar, OmniGrammar
+)
 from .token import Token
 from .decoder import PVLDecoder, ODLDecoder, PDSLabelDecoder, OmniDecoder
 
@@ -66,6 +68,9 @@ class PVLEncoder(object):
         to an *object_class*), otherwise will raise TypeError.  Defaults
         to PVLObject.
     """
+
+    # What pvl.loads() decodes with, when no decoder is given:
+    _permissive_decoder = OmniDecoder(grammar=OmniGrammar())
 
     def __init__(
         self,
@@ -307,7 +312,19 @@ class PVLEncoder(object):
         Parameter Name or Block Name (it is empty, a reserved word,
         or contains white space or reserved characters)."""
         tok = Token(str(key), grammar=self.grammar, decoder=self.decoder)
-        if not tok.is_parameter_name():
+        # The default loader must be able to take it for a name, too
+        # (it recognizes more date and time forms), and a trailing
+        # dash at the end of a line would be a line continuation.
+        permissive = Token(
+            str(key),
+            grammar=self._permissive_decoder.grammar,
+            decoder=self._permissive_decoder,
+        )
+        if (
+            not tok.is_parameter_name()
+            or not permissive.is_parameter_name()
+            or str(key).endswith("-")
+        ):
             raise ValueError(
                 f'The key "{key}" cannot be written as a Parameter Name '
                 "or Block Name."
@@ -550,12 +567,19 @@ class PVLEncoder(object):
         # Finally, the bare text must read back as the very same string,
         # and not as a keyword (NULL, true, ...), a reserved word in
         # another letter case (end, Group, ...), or a number (inf, nan).
-        try:
-            decoded = self.decoder.decode_simple_value(s)
-        except ValueError:
-            return True
+        # This must hold for this encoder's own decoder and for the
+        # permissive decoder of the default loader, which recognizes
+        # more forms (e.g. times with a zone offset, "12:00-01").
+        for decoder in (self.decoder, self._permissive_decoder):
+            try:
+                decoded = decoder.decode_simple_value(s)
+            except ValueError:
+                return True
 
-        return not (isinstance(decoded, str) and decoded == s)
+            if not (isinstance(decoded, str) and decoded == s):
+                return True
+
+        return False
 
     def encode_string(self, value) -> str:
         """Returns a ``str`` formatted as a PVL String based
@@ -1289,18 +1313,3 @@ class ISISEncoder(PVLEncoder):
             group_class=group_class,
             object_class=object_class
         )
-
-    def needs_quotes(self, s: str) -> bool:
-        """Extends the parent function, because ISIS-flavored text
-        is read back with the permissive decoder, which recognizes
-        more forms (e.g. times with a zone offset, ``12:00+01``) than
-        this encoder's own decoder does."""
-        if super().needs_quotes(s):
-            return True
-
-        try:
-            decoded = OmniDecoder(grammar=self.grammar).decode_simple_value(s)
-        except ValueError:
-            return True
-
-        return not (isinstance(decoded, str) and decoded == s)
